@@ -1462,3 +1462,81 @@ Lemma K_copy_calls : forall x,
   mc_cache_copy x = x /\ mc_draw_sel x = x /\ comp_mc_copy x = x /\ comp_draw_sel x = x /\
   sig_mc_sel x = x /\ sig_redraw_sel x = x /\ ctor_empty x = x /\ ctor_copyto x = x.
 Proof. intros x. repeat split. Qed.
+
+(* ================================================================ a copy has the content of its source *)
+Definition copy_one (n : Z) (p : fid * bloc) : M (fid * bloc) :=
+  mdo v <-- rdbuf (snd p) ;; mdo v' <-- lift (copyto_bcast n v) ;; mdo b <-- alloc v' ;; ret (fst p, b).
+
+Lemma copy_one_spec n p s v :
+  nth_error (sb s) (snd p) = Some v -> zlen v = n ->
+  copy_one n p s = (mkS (sb s ++ [v]) (st s), Ok (fst p, length (sb s))).
+Proof.
+  intros E L. unfold copy_one, mbind, rdbuf, lift, copyto_bcast, alloc, ret. cbv beta.
+  match goal with |- context [nth_error ?a ?b] => replace (nth_error a b) with (Some v) by (symmetry; exact E) end.
+  cbv beta iota. rewrite L, Z.eqb_refl. reflexivity.
+Qed.
+
+Lemma copy_loop n kept : forall s,
+  (forall p, In p kept -> exists v, nth_error (sb s) (snd p) = Some v /\ zlen v = n) ->
+  exists s' fs, mapMM (copy_one n) kept s = (s', Ok fs) /\ st s' = st s /\
+    (forall b, (b < length (sb s))%nat -> nth_error (sb s') b = nth_error (sb s) b) /\
+    (length (sb s) <= length (sb s'))%nat /\
+    map (fun q => (fst q, nth_error (sb s') (snd q))) fs = map (fun p => (fst p, nth_error (sb s) (snd p))) kept /\
+    valid_fields s' fs = true.
+Proof.
+  induction kept as [|p r IH]; intros s Hk.
+  - exists s, []. cbn. repeat split; auto.
+  - destruct (Hk p (or_introl eq_refl)) as (v & Ev & Lv).
+    set (s1 := mkS (sb s ++ [v]) (st s)).
+    assert (Hk1 : forall q, In q r -> exists w, nth_error (sb s1) (snd q) = Some w /\ zlen w = n).
+    { intros q Hq. destruct (Hk q (or_intror Hq)) as (w & Ew & Lw). exists w. split; [|exact Lw].
+      subst s1; cbn [sb]. rewrite nth_error_app1; [exact Ew | apply nth_error_Some_lt in Ew; exact Ew]. }
+    destruct (IH s1 Hk1) as (s' & fs & Em & Est & Eold & Elen & Emap & Eval).
+    exists s', ((fst p, length (sb s)) :: fs).
+    cbn [mapMM]. unfold mbind at 1. rewrite (copy_one_spec n p s v Ev Lv). fold s1.
+    unfold mbind at 1. rewrite Em. cbn [ret fst snd].
+    assert (Ls1 : length (sb s1) = S (length (sb s))) by (subst s1; cbn [sb]; rewrite app_length; cbn; lia).
+    split; [reflexivity|]. split; [rewrite Est; reflexivity|]. split.
+    + intros b Hb. rewrite Eold by lia. subst s1; cbn [sb]. apply nth_error_app1; exact Hb.
+    + split; [lia|]. split.
+      * cbn [map fst snd]. f_equal; [|rewrite Emap; apply map_ext_in; intros q Hq;
+          destruct (Hk q (or_intror Hq)) as (w & Ew & _); f_equal; subst s1; cbn [sb];
+          apply nth_error_app1; apply nth_error_Some_lt in Ew; exact Ew].
+        f_equal. rewrite Eold by lia. subst s1; cbn [sb]. rewrite nth_error_snoc. symmetry; exact Ev.
+      * unfold valid_fields in *. cbn [forallb snd]. rewrite Eval. rewrite andb_true_r.
+        apply Nat.ltb_lt. lia.
+Qed.
+
+Lemma mbind_eq {A B} (m : M A) (f : A -> M B) s s1 a : m s = (s1, Ok a) -> mbind m f s = f a s1.
+Proof. intros E. unfold mbind. rewrite E. reflexivity. Qed.
+
+Lemma filter_true {A} (l : list A) : filter (fun _ => true) l = l.
+Proof. induction l; cbn; congruence. Qed.
+
+(* the full copy of a consistent table (every column exists and has the table's length) - what unblind hands to
+   initialize_trial, what the experimental-data background method scrambles - has exactly the source's value view:
+   field names in order, column contents (row order), length *)
+Theorem copy_content : forall t s x,
+  nth_error (st s) t = Some x ->
+  (forall p, In p (tf x) -> exists v, nth_error (sb s) (snd p) = Some v /\ zlen v = tlen x) ->
+  (tf x = [] -> tlen x = 0) ->
+  exists t', snd (t_copy t None s) = Ok t' /\
+             view (fst (t_copy t None s)) t' = view s t /\ (length (st s) <= t')%nat.
+Proof.
+  intros t s x Ex Hc He.
+  destruct (copy_loop (tlen x) (tf x) s Hc) as (s' & fs & Em & Est & Eold & Elen & Emap & Eval).
+  assert (Ecopy : t_copy t None s =
+                  (mkS (sb s') (st s' ++ [mkT fs (match fs with [] => 0 | _ => tlen x end)]), Ok (length (st s')))).
+  { unfold t_copy.
+    rewrite (mbind_eq (rdtab t) _ s s x) by (unfold rdtab; rewrite Ex; reflexivity).
+    cbv beta zeta. rewrite filter_true.
+    change (fun p : fid * bloc => mdo v <-- rdbuf (snd p);; mdo v' <-- lift (copyto_bcast (tlen x) v);;
+                                   mdo b <-- alloc v';; ret (fst p, b)) with (copy_one (tlen x)).
+    rewrite (mbind_eq _ _ s s' fs Em). unfold newtab. cbn [tf]. rewrite Eval. reflexivity. }
+  rewrite Ecopy. cbn [fst snd].
+  exists (length (st s')). split; [reflexivity|]. split; [|rewrite Est; lia].
+  unfold view; cbn [sb st]. rewrite nth_error_snoc, Ex. cbn [tf tlen]. unfold column; cbn [sb].
+  f_equal. f_equal; [exact Emap|].
+  destruct fs as [|q fs']; [|reflexivity].
+  destruct (tf x) as [|p r]; [symmetry; apply He; reflexivity | cbn in Emap; discriminate].
+Qed.
